@@ -2,7 +2,7 @@
 from hypothesis import strategies as st
 
 from vf import gen
-from vf.core import Fails, Target, attempt, bx, hx, raised
+from vf.core import Fails, Target, attempt, bx, hx, raised, seq
 from vf.ref import base58 as rb58
 from vf.ref import ec
 
@@ -51,7 +51,7 @@ def check_roundtrip(case):
         tag = "c" if comp else "u"
         if f.expect(enc == want, f"sec1/encode-ne-reference/{tag}", repr(enc)[:80]):
             dec = attempt(bits.point, enc)
-            f.expect(not raised(dec) and tuple(dec) == pt, f"sec1/decode-of-encode-ne-point/{tag}", repr(dec)[:100])
+            f.expect(not raised(dec) and seq(dec) == pt, f"sec1/decode-of-encode-ne-point/{tag}", repr(dec)[:100])
             isp = attempt(bits.is_point, enc)
             f.expect(isp is True, f"sec1/is_point-false-on-valid/{tag}", repr(isp))
     cp = attempt(compressed_pubkey, ec.sec1_encode(pt, False))
@@ -76,7 +76,7 @@ def check_accept(case):
         attempt(bits.point, bx(case["base"]))
     got = attempt(bits.point, b)
     if want is not None:
-        f.expect(not raised(got) and tuple(got) == want, f"point/rejects-or-wrong-valid/{kind}", repr(got)[:100])
+        f.expect(not raised(got) and seq(got) == want, f"point/rejects-or-wrong-valid/{kind}", repr(got)[:100])
     else:
         f.expect(raised(got), f"point/accepts-invalid/{kind}", repr(got)[:100])
     isp = attempt(bits.is_point, b)
@@ -105,7 +105,7 @@ def check_wif(case):
         if not f.expect(enc == want, "wif/encode-ne-reference", repr(enc)[:80]):
             return cls, f
         dec = attempt(bits.wif_decode, enc)
-        f.expect(not raised(dec) and tuple(dec) == (bytes([ver]), key, data), "wif/decode-tuple-ne-input", repr(dec)[:120])
+        f.expect(not raised(dec) and seq(dec) == (bytes([ver]), key, data), "wif/decode-tuple-ne-input", repr(dec)[:120])
         dd = attempt(bits.wif_decode, enc, return_dict=True)
         ok = (not raised(dd) and isinstance(dd, dict) and dd.get("key") == key.hex() and dd.get("data") == data.hex() and dd.get("addr_type") == typ
               and (dd.get("network") == "mainnet") == (net == "mainnet") and dd.get("version") == bytes([ver]).hex())
@@ -125,7 +125,7 @@ def check_wif(case):
         else:
             cls.append("still-valid")
             if len(payload) >= 33:
-                f.expect(not raised(got) and tuple(got) == (payload[0:1], payload[1:33], payload[33:]), "wif/rejects-or-wrong-valid", repr(got)[:100])
+                f.expect(not raised(got) and seq(got) == (payload[0:1], payload[1:33], payload[33:]), "wif/rejects-or-wrong-valid", repr(got)[:100])
         return cls, f
     # encoders must refuse invalid private keys
     key = bx(case["key"])
@@ -164,7 +164,7 @@ def check_pem(case):
             f.add("pem/encode-private-raises", pem)
             return cls, f
         dec = attempt(pem_decode_key, pem)
-        f.expect(not raised(dec) and tuple(dec) == (key, ec.sec1_encode(pt, False)), "pem/private-roundtrip", repr(dec)[:120])
+        f.expect(not raised(dec) and seq(dec) == (key, ec.sec1_encode(pt, False)), "pem/private-roundtrip", repr(dec)[:120])
         if HAVE_OPENSSL:
             try:
                 k = cser.load_pem_private_key(pem, password=None)
@@ -180,7 +180,7 @@ def check_pem(case):
             f.add("pem/encode-public-raises/" + mode, pem)
             return cls, f
         dec = attempt(pem_decode_key, pem)
-        f.expect(not raised(dec) and tuple(dec) == (pk,), "pem/public-roundtrip/" + mode, repr(dec)[:120])
+        f.expect(not raised(dec) and seq(dec) == (pk,), "pem/public-roundtrip/" + mode, repr(dec)[:120])
         if HAVE_OPENSSL:
             try:
                 k = cser.load_pem_public_key(pem)
@@ -192,13 +192,15 @@ def check_pem(case):
         k = cec.derive_private_key(d, cec.SECP256K1())
         pem = k.private_bytes(cser.Encoding.PEM, cser.PrivateFormat.TraditionalOpenSSL, cser.NoEncryption())
         dec = attempt(pem_decode_key, pem)
-        ok = not raised(dec) and len(dec) == 2 and int.from_bytes(dec[0], "big") == d and ec.sec1_decode(dec[1]) == pt
+        parts = seq(dec, 2)
+        ok = not raised(dec) and len(parts) == 2 and all(isinstance(x, (bytes, bytearray)) for x in parts) and int.from_bytes(parts[0], "big") == d and ec.sec1_decode(parts[1]) == pt
         f.expect(ok, "pem/openssl-private-read-differently", repr(dec)[:160])
     elif mode == "openssl-pub" and HAVE_OPENSSL:
         k = cec.derive_private_key(d, cec.SECP256K1()).public_key()
         pem = k.public_bytes(cser.Encoding.PEM, cser.PublicFormat.SubjectPublicKeyInfo)
         dec = attempt(pem_decode_key, pem)
-        ok = not raised(dec) and len(dec) == 1 and ec.sec1_decode(dec[0]) == pt
+        parts = seq(dec, 1)
+        ok = not raised(dec) and isinstance(parts[0], (bytes, bytearray)) and ec.sec1_decode(parts[0]) == pt
         f.expect(ok, "pem/openssl-public-read-differently", repr(dec)[:160])
     return cls, f
 
